@@ -4,6 +4,7 @@ import (
 	"bytes"
 	"fmt"
 	"io"
+	"strings"
 	"sync"
 
 	"larking.io/larking"
@@ -307,7 +308,7 @@ func c17Sequences(thorough bool) []c17Seq {
 
 func runC17(c *Ctx) {
 	r := c.Run
-	r.Rule("codec{proto,json,body} × message sequence (0..3 msgs) × limit{max-1,max,max+1,big} × initial carry split × buf cap{exact,64} × EOF convention{separate,with data} × read partition (all 2^(n-1) for short streams; ≤2 cuts + uniform chunk sizes beyond) × truncation offset; plus every 1..10-byte length prefix over {80,81,ff}*{00,01,02,7f}; distinct = (codec,sequence,limit) classes")
+	r.Rule("codec{proto,json,body} × message sequence (0..3 msgs) × limit{max-1,max,max+1,big} × initial carry split × buf cap{exact,64} × EOF convention{separate,with data} × read partition (all 2^(n-1) for short streams; ≤2 cuts + uniform chunk sizes beyond) × truncation offset; plus every 1..10-byte length prefix over {80,81,ff}*{00,01,02,7f}; plus the write side: WriteNext framing of every sequence, no write into the caller's memory (batch of messages in one buffer), and ReadNext→WriteNext relays with carried look-ahead (5 read granularities × 4 buffer capacities); distinct = (codec,sequence,limit) classes")
 	r.Assume("limit <= 0 is not exercised (semantics undocumented)", "the scripted reader follows the io.Reader contract (may return n>0 together with io.EOF)")
 	fullMax := 10
 	if c.Thorough() {
@@ -445,6 +446,7 @@ func runC17(c *Ctx) {
 	})
 
 	c17Prefixes(c)
+	c17WriteSide(c)
 
 	r.AddStates(int64(len(stateSet)))
 	r.AddValidated(r.Evaluations())
@@ -537,7 +539,113 @@ func c17Prefixes(c *Ctx) {
 	r.Set("length_prefixes", len(prefixes))
 }
 
+// c17WriteSide: the writing half of the law. For every sequence: (1) WriteNext of each message
+// produces exactly the reference framing; (2) WriteNext writes nothing into the caller's
+// memory - neither into the message nor into the spare capacity behind it (which, in a relay
+// or a batch, holds the next message or the reader's look-ahead); (3) a relay - ReadNext,
+// WriteNext(dst[:n]) to the output, carry dst[n:] into the next ReadNext - reproduces the
+// input stream byte for byte, for several read granularities and buffer capacities.
+func c17WriteSide(c *Ctx) {
+	r := c.Run
+	for _, seq := range c17Sequences(c.Thorough()) {
+		if seq.codec == "body" {
+			continue
+		}
+		codec := c17Codec(seq.codec)
+		var stream []byte
+		for _, m := range seq.msgs {
+			stream = append(stream, c17Frame(seq.codec, m)...)
+		}
+		cs := map[string]any{"kind": "write-side", "codec": seq.codec, "msgs_hex": fmt.Sprintf("%x", seq.msgs)}
+		key := fmt.Sprintf("codec=%s msgs=%x", seq.codec, seq.msgs)
+		// (1) + (2): a batch - all messages back to back in ONE buffer, written one by one
+		batch := make([]byte, 0, len(stream)+32)
+		var offs [][2]int
+		for _, m := range seq.msgs {
+			offs = append(offs, [2]int{len(batch), len(batch) + len(m)})
+			batch = append(batch, m...)
+		}
+		batch = append(batch, bytes.Repeat([]byte{0xEE}, 16)...) // sentinel bytes behind the last message
+		pristine := append([]byte(nil), batch...)
+		var out bytes.Buffer
+		for i, o := range offs {
+			src := batch[o[0]:o[1]] // cap(src) reaches to the end of the batch buffer
+			var one bytes.Buffer
+			p, txt := guard(func() { _, _ = codec.WriteNext(&one, src) })
+			r.Eval(1)
+			if p {
+				r.Violation(report.Violation{Oracle: "panic", Key: "write-panic " + key, Case: cs, Note: txt})
+				break
+			}
+			if want := c17Frame(seq.codec, seq.msgs[i]); !bytes.Equal(one.Bytes(), want) {
+				r.Outcome("FAIL:write-framing")
+				r.Violation(report.Violation{Oracle: "write-framing", Key: "write-framing " + key, Case: cs, Note: fmt.Sprintf("message %d: WriteNext wrote %x, the framing is %x", i, one.Bytes(), want)})
+				break
+			}
+			if !bytes.Equal(batch, pristine) {
+				r.Outcome("FAIL:write-touches-caller-memory")
+				r.Violation(report.Violation{Oracle: "write-touches-caller-memory", Key: "write-touches-caller-memory " + key, Case: cs,
+					Note: fmt.Sprintf("writing message %d changed the caller's buffer (the message itself or the bytes behind it within its capacity):\n was %x\n now %x", i, pristine, batch)})
+				break
+			}
+			out.Write(one.Bytes())
+		}
+		// (3) relay
+		for _, chunk := range []int{1, 2, 3, 5, 64} {
+			for _, capb := range []int{0, 4, 16, 64} {
+				rd := env.NewReader(env.Script{Data: stream, MaxRead: chunk})
+				var relayed bytes.Buffer
+				buf := make([]byte, 0, capb)
+				bad := ""
+				for step := 0; step < len(seq.msgs)+2 && bad == ""; step++ {
+					var dst []byte
+					var n int
+					var err error
+					p, txt := guard(func() { dst, n, err = codec.ReadNext(buf, rd, 1<<22) })
+					if p {
+						bad = "panic in ReadNext: " + txt
+						break
+					}
+					if err != nil {
+						if n > 0 {
+							if _, werr := codec.WriteNext(&relayed, dst[:n]); werr != nil {
+								bad = "WriteNext: " + werr.Error()
+							}
+						}
+						break
+					}
+					if _, werr := codec.WriteNext(&relayed, dst[:n]); werr != nil {
+						bad = "WriteNext: " + werr.Error()
+						break
+					}
+					buf = append(dst[:0], dst[n:]...) // carry the look-ahead, as the mux does
+				}
+				r.Eval(1)
+				if bad == "" && !bytes.Equal(relayed.Bytes(), stream) {
+					bad = fmt.Sprintf("relayed stream %x differs from the input stream %x", relayed.Bytes(), stream)
+				}
+				if bad != "" {
+					r.Outcome("FAIL:relay")
+					r.Violation(report.Violation{Oracle: "relay-differs", Key: fmt.Sprintf("relay-differs %s chunk=%d cap=%d", key, chunk, capb), Case: cs, Note: bad})
+					break
+				}
+				r.Outcome("write-side:relay-ok")
+			}
+		}
+	}
+}
+
 func replayC17(c *Ctx, v report.Violation) {
+	if strings.HasPrefix(v.Key, "write-") || strings.HasPrefix(v.Key, "relay-") {
+		sub := *c
+		sub.Run = report.NewRun("C17", "quick", 0, "exploration")
+		c17WriteSide(&sub)
+		fmt.Printf("replay: write-side family re-run -> %d violations\n", sub.Run.NumViolations())
+		if sub.Run.NumViolations() > 0 {
+			c.Run.Violation(report.Violation{Oracle: v.Oracle, Key: v.Key, Case: v.Case, Note: "still violated"})
+		}
+		return
+	}
 	// Case is re-marshalled through JSON by the caller into v.Case (map); decode fields.
 	var tc c17Case
 	if !remarshal(v.Case, &tc) {
